@@ -1,4 +1,4 @@
-\* C09 design run: a, b, c build concurrently, then d builds; collapsed script
+\* C09 design run: a, b, c build concurrently (every interleaving), then d builds; collapsed script, Serial + string kernel
 SPECIFICATION Spec
 CONSTANTS
   Proc = {"a", "b", "c", "d"}
@@ -7,7 +7,7 @@ CONSTANTS
   Crashers = {}
   Late = {"d"}
   Sequential = FALSE
-  Variants = {"SS", "OF"}
+  Variants = {"SS"}
   VendorOutStaged = TRUE
   Collapsed = TRUE
   Emit = FALSE
